@@ -41,6 +41,7 @@ type vSrvScenario struct {
 	Deadline  int               `json:"deadline"` // ms
 	Pollers   int               `json:"pollers"`
 	HoldSetup bool              `json:"holdsetup"` // the plan starts when every poller and the shutdown actor stand in front of their first real step; projections are logged
+	ShutAfter int               `json:"shutafter"` // Shutdown is called once this many connections are tracked and idle (0: at any time)
 	Pusher    bool              `json:"pusher"`    // a server-side goroutine (outside any handler) pushes a payload far above the socket buffer to the first connection
 }
 
@@ -210,6 +211,21 @@ func vRunSrvScenario(sc *vSrvScenario) ([]vOutEvent, map[string]interface{}) {
 	if sc.Shutdown {
 		s.Go("shutdown", func() {
 			s.Yield()
+			if sc.ShutAfter > 0 {
+				s.BlockUntil(func() bool {
+					n := 0
+					svr.connections.Range(func(key, value interface{}) bool {
+						if c, ok := value.(*connection); ok && c.isIdle() {
+							n++
+						}
+						return true
+					})
+					return n >= sc.ShutAfter
+				})
+				if !s.active {
+					return
+				}
+			}
 			ctx, cancel := context.WithTimeout(context.Background(), time.Duration(sc.Deadline)*time.Millisecond)
 			defer cancel()
 			ev("ShutdownCall", "", sc.Deadline, 0, "")
